@@ -47,7 +47,15 @@ type tcase struct {
 		Urms  [][]int             `json:"urms"`  // [user, org]
 	} `json:"final"`
 	NV int `json:"nv"` // name concretisation variant
+	// "bulk" concretisation: every abstract organization additionally carries this many filler buckets, created through the
+	// real service right after the organization; their names are outside the abstract name domain. They must exist exactly as
+	// long as their organization does.
+	Bulk int `json:"bulk"`
 }
+
+const fillerPrefix = "zz-filler-"
+
+func fillerName(j int) string { return fmt.Sprintf("%s%03d", fillerPrefix, j) }
 
 // concrete names for the abstract n1, n2 (seed-chosen per case by the check)
 var nameVariants = [][2]string{
@@ -85,6 +93,7 @@ type world struct {
 	rorg map[platform.ID]int
 	rusr map[platform.ID]int
 	rbkt map[platform.ID]int
+	bulk int
 }
 
 func (w *world) name(a string) string {
@@ -154,7 +163,7 @@ func (w *world) project() (p proj, counts []int, problem string) {
 	if err != nil {
 		return p, nil, "FindUserResourceMappings: " + err.Error()
 	}
-	counts = []int{len(orgs), len(bkts), len(users), len(urms)}
+	counts = []int{len(orgs), 0, len(users), len(urms)}
 	liveOrg := map[platform.ID]bool{}
 	orgByName := map[string]platform.ID{}
 	for _, o := range orgs {
@@ -181,8 +190,13 @@ func (w *world) project() (p proj, counts []int, problem string) {
 	}
 	bktByName := map[on]platform.ID{}
 	perOrg := map[platform.ID][]string{}
+	fillers := map[platform.ID]int{}
 	for _, b := range bkts {
-		p.Bkts = append(p.Bkts, w.idBkt(b.ID)+" "+w.idOrg(b.OrgID)+" "+w.abstractName(b.Name))
+		if strings.HasPrefix(b.Name, fillerPrefix) {
+			fillers[b.OrgID]++ // not part of the abstract tables, but subject to every consistency check below
+		} else {
+			p.Bkts = append(p.Bkts, w.idBkt(b.ID)+" "+w.idOrg(b.OrgID)+" "+w.abstractName(b.Name))
+		}
 		k := on{b.OrgID, b.Name}
 		if prev, dup := bktByName[k]; dup {
 			problem = fmt.Sprintf("two buckets named %q in organization %v: %v and %v", b.Name, b.OrgID, prev, b.ID)
@@ -203,6 +217,12 @@ func (w *world) project() (p proj, counts []int, problem string) {
 		}
 		if !liveUsr[m.UserID] {
 			problem = fmt.Sprintf("membership in %v refers to user %v which does not exist", m.ResourceID, m.UserID)
+		}
+	}
+	counts[1] = len(p.Bkts)
+	for _, o := range orgs {
+		if fillers[o.ID] != w.bulk && problem == "" {
+			problem = fmt.Sprintf("organization %v has %d of its %d filler buckets", o.ID, fillers[o.ID], w.bulk)
 		}
 	}
 	sort.Strings(p.Orgs)
@@ -233,6 +253,9 @@ func (w *world) project() (p proj, counts []int, problem string) {
 		}
 	}
 	bnames := []string{w.names[0], w.names[1], influxdb.TasksSystemBucketName, influxdb.MonitoringSystemBucketName}
+	for j := 0; j < w.bulk; j++ {
+		bnames = append(bnames, fillerName(j))
+	}
 	for _, oid := range w.org { // every organization ever created, live or deleted
 		for _, n := range bnames {
 			got, err := w.svc.FindBucketByName(ctx, oid, n)
@@ -293,7 +316,7 @@ func run(raw json.RawMessage, env *rt.Env) rt.Result {
 	svc := tenant.NewService(tenant.NewStore(st))
 	svc.TaskService = fakeTasks{}
 	w := &world{ctx: ctx, svc: svc, names: nameVariants[c.NV], org: map[int]platform.ID{}, usr: map[int]platform.ID{}, bkt: map[int]platform.ID{},
-		rorg: map[platform.ID]int{}, rusr: map[platform.ID]int{}, rbkt: map[platform.ID]int{}}
+		rorg: map[platform.ID]int{}, rusr: map[platform.ID]int{}, rbkt: map[platform.ID]int{}, bulk: c.Bulk}
 	nOrg, nUsr, nBkt := 0, 0, 0
 	evals := 0
 	nontrivial := false
@@ -317,6 +340,11 @@ func run(raw json.RawMessage, env *rt.Env) rt.Result {
 						return rt.Fail(i, fmt.Sprintf("organization %q created but its system bucket %s cannot be found: %v", o.Name, n, e), nil, nil)
 					}
 					w.bkt[100+2*nOrg+k], w.rbkt[b.ID] = b.ID, 100+2*nOrg+k
+				}
+				for j := 0; j < c.Bulk; j++ {
+					if e := svc.CreateBucket(ctx, &influxdb.Bucket{OrgID: o.ID, Name: fillerName(j)}); e != nil {
+						return rt.Infra(fmt.Sprintf("creating filler bucket %d of organization %q: %v", j, o.Name, e))
+					}
 				}
 			}
 		case "renameOrg":
